@@ -40,7 +40,7 @@ func registerProps() {
 			"Each lookup takes a moment M (next to a Jie instant, Lichun day, rat hour, January of the base year, December of the current year, repeat of an earlier M under another clock/base/convention, or arbitrary), derives its pillars by the library's forward conversion, and checks soundness, strict order, and - when M lies between the first Jie of the base year and the end of the current year (local zone) at the instant of the call - completeness. " +
 			"Non-trivial: at least one lookup fell inside the completeness range. Distinct: by hash of (M, convention, base, API, simulated current year) over the run.",
 		real:    libReal,
-		stubbed: []string{"time.Now -> simulated clock (set, jumped and ticked by the simulator)", "time.Local -> zone chosen by the simulator", "no scheduler needed: single caller; simrt in pass-through (solo) mode with the lock monitor active"},
+		stubbed: []string{"time.Now -> simulated clock (set, jumped and ticked by the simulator)", "time.Local -> zone chosen by the simulator (fixed offsets -12h..+14h, odd half-hour offsets, and named zones with daylight-saving rules from the embedded tzdata)", "88% of the runs have a single caller (simrt in pass-through solo mode with the lock monitor active); 12% have 2-3 callers under the seeded scheduler (random / PCT / round-robin preemption at every instrumented access), whose lookups overlap and whose clock and zone faults land inside the other callers' lookups - completeness is then demanded up to the smallest local year the call could have read between its start and its return; findings of the scheduler-level monitors (races, blocked calls) in these runs are left to C09 (counted as probes, no verdict)"},
 		assume: []string{"the forward conversion (moment -> four pillars, Jie instants) is trusted here; it is the subject of C03/C05",
 			"'current year' is the civil year of the simulated wall clock in the simulated local zone",
 			"sampling: a clean batch is evidence, not proof"},
